@@ -28,13 +28,16 @@ CHECK = {
             "Families per case index: random walks with catch-up epilogue, systematic placement of one disruption at every position of a 3-6 op history, "
             "late-Persist scripts (K09 stream), histories ending in an op with origins (K01a stream). Thorough adds real Raft: one node "
             "(commit/snapshot/shutdown/OfflineState/restart), a node in a child process SIGKILLed with an op in flight, three nodes with TrailingLogs=1 "
-            "where a stopped follower is brought back by InstallSnapshot onto its restored state. non-trivial = at least one entry applied; distinct by case line",
+            "where a stopped follower is brought back by InstallSnapshot onto its restored state. Suite redir (both tiers): three real nodes, CommitRetries 0-2, "
+            "LogPin/LogUnpin/AddPeer/RmPeer submitted at a follower or the leader while the leader's RPC endpoint fails the next N forwarded requests "
+            "(N = 0, retries, retries+1, retries+2). The undecodable stream draws origins, Reference=cid.Undef and undefined Cid. non-trivial = at least one entry applied; distinct by case line",
     "trusted_base": [
         "Raft (hashicorp/raft + raft-boltdb) delivers one committed sequence to every member, keeps every entry after a member's newest snapshot, "
         "and fsyncs entries before acknowledging: the committed sequence `ops` is a parameter of the model",
         "the FSM-level harness plays Raft's role (which entry is next, which snapshot is newest) as hashicorp/raft v1.1.1 does; its 'applied' counter mirrors raft.lastApplied",
         "hook file /repo/consensus/raft/verif_export_c01.go (VerifNewFSM = first half of NewConsensus without a Raft instance, VerifEncodeOp/VerifEncodeTracedOp = "
         "the LogOp as commit() builds it, encoded like go-libp2p-raft encodeOp; VerifRaft, VerifLogCommands read-only accessors)",
+        "extract_c01 (go/ast) reads the statement skeleton of redirectToLeader/commit/AddPeer/RmPeer; the fault injector of suite redir stands for an unreachable or abdicating leader",
         "recording PinTracker behind a real in-process gorpc server; in-memory datastore as cmdutils.raftStateManager.GetStore provides",
     ],
     "assumptions": [
@@ -49,7 +52,9 @@ META = {
             "committed value of a present-or-future prefix, a caught-up peer serves exactly the replay of the whole sequence, and every peer can always catch up "
             "again (future_inv, caught_up_exact, catch_up_reachable, ack_visible_durable); for schedules with point-in-time snapshots a peer serves exactly "
             "replay(ops.take applied) (prefix_inv_partial) and the model's observations satisfy every clause of the property as written from its text "
-            "(model_holds_partial); an applied entry hands exactly its pin to the tracker (tracker_handoff). The full-strength statements are refuted by "
+            "(model_holds_partial); the commit path (commit/AddPeer/RmPeer over redirectToLeader), as a function of an oracle of attempt outcomes with the statement "
+            "skeleton regenerated from the source by a go/ast translator, acknowledges only what some attempt committed, reports an error exactly when none did, and "
+            "consumes at most (CommitRetries+1)^2 attempts (ack_implies_some_attempt_committed, all_fail_reports_error, retry_bound); an applied entry hands exactly its pin to the tracker (tracker_handoff). The full-strength statements are refuted by "
             "kernel-checked witnesses where the code really breaks them (prefix_inv_fails / some_prefix_fails: go-libp2p-raft snapshots are not point-in-time, K09; "
             "decode_total_fails / caught_up_exact_fails: pins with origins, K01a). The model is tied to the code by driving the real FSM (and, thorough, real Raft "
             "nodes incl. SIGKILL and InstallSnapshot) with seeded event scripts and comparing every observation with the model, and the Spec clauses are evaluated on the implementation's observations.",
